@@ -14,10 +14,11 @@ using namespace sim;
 enum { OP_ALLOC = 0, OP_FREE, OP_DEALLOC, OP_REALLOC, OP_REALLOC_NULL, OP_REALLOC_ZERO, OP_FREE_NULL, OP_GETSIZE, OP_VERIFY, OP_GIVE, OP_TAKE, OP_PAGES, OP_CHURN, OP_BULK, OP_N };
 static const char *op_names[OP_N] = {"alloc", "free", "dealloc", "realloc", "realloc_null", "realloc_zero", "free_null", "get_size", "verify", "give", "take", "used_pages", "churn", "bulk"};
 static const int NH = 48;      // handle slots addressed by plan ops
+static const uint32_t NORETRY = 1u << 31; // flag in Op::mapfail: a failed request is not retried at once (failure bursts)
 static const int NBULK = 6144; // extra slots used by the bulk op (fills whole slabs)
 
 static int P_maps, P_unmaps, P_slab_first, P_slab_additional, P_large, P_realloc_inplace, P_realloc_moved, P_realloc_map, P_xfree, P_handover, P_take_fail, P_contended_construct, P_remote_free_into_head,
-	P_relink_full, P_mapfail_injected, P_mapfail_while_other_holds, P_skipped, P_poison_redundant, P_unpoison_redundant, P_churn_iters, P_arena_exhausted, P_lock_contention, P_recovered, P_pages_sampled, P_unaligned_slack, P_bulk_blocks, P_slab_filled, P_long_churn, P_granule_runs;
+	P_relink_full, P_mapfail_injected, P_mapfail_while_other_holds, P_skipped, P_poison_redundant, P_unpoison_redundant, P_churn_iters, P_arena_exhausted, P_lock_contention, P_recovered, P_pages_sampled, P_unaligned_slack, P_bulk_blocks, P_slab_filled, P_long_churn, P_granule_runs, P_burst_fail, P_multi_pages_checked;
 
 struct Region { uint64_t base, len; int kind; /*0 slab,1 large*/ int64_t pages; int by_task, by_op; uint64_t cls; bool counted; };
 struct Block { char *ptr = nullptr; size_t req = 0, reported = 0; uint64_t pat = 0; int owner = 0; bool live = false, offered = false, inflight = false; VC chan; };
@@ -43,6 +44,7 @@ struct SlabEngine : Engine {
 	// footprint
 	std::map<uint64_t, int64_t> live_cls, peak_cls, slabs_cls;
 	static std::map<std::pair<int, uint64_t>, int64_t> bps_cache;
+	static std::map<std::pair<int, uint64_t>, int64_t> slab_pages_cache; // numUsedPages() delta of one slab of a class (measured)
 	bool calibrating = false; uint64_t calib_top = 0; int calib_maps = 0;
 	// fault learning for C04 derive()
 	std::vector<std::pair<int, int>> map_sites; // (index into plan.ops, j)
@@ -58,7 +60,7 @@ struct SlabEngine : Engine {
 		P_remote_free_into_head = probe_id("free_into_slab_another_task_allocates_from"); P_relink_full = probe_id("full_slab_relinked_by_free"); P_mapfail_injected = probe_id("map_failures_injected");
 		P_mapfail_while_other_holds = probe_id("map_failure_while_other_task_holds_a_pool_lock"); P_skipped = probe_id("ops_skipped_precondition"); P_poison_redundant = probe_id("kasan_strict:poison_of_poisoned_byte");
 		P_unpoison_redundant = probe_id("kasan_strict:unpoison_of_unpoisoned_byte"); P_churn_iters = probe_id("churn_iterations"); P_arena_exhausted = probe_id("arena_exhausted"); P_lock_contention = probe_id("alloc_or_free_overlapping_another_task's");
-		P_recovered = probe_id("retry_after_map_failure_succeeded"); P_pages_sampled = probe_id("used_pages_sampled"); P_unaligned_slack = probe_id("unaligned_map_nonzero_residue"); P_bulk_blocks = probe_id("bulk_blocks_allocated"); P_slab_filled = probe_id("slab_filled_completely(second_slab_of_class_mapped_in_bulk)"); P_long_churn = probe_id("long_churn_over_65536_allocations"); P_granule_runs = probe_id("runs_with_8_byte_granule_poison_shadow");
+		P_recovered = probe_id("retry_after_map_failure_succeeded"); P_pages_sampled = probe_id("used_pages_sampled"); P_unaligned_slack = probe_id("unaligned_map_nonzero_residue"); P_bulk_blocks = probe_id("bulk_blocks_allocated"); P_slab_filled = probe_id("slab_filled_completely(second_slab_of_class_mapped_in_bulk)"); P_long_churn = probe_id("long_churn_over_65536_allocations"); P_granule_runs = probe_id("runs_with_8_byte_granule_poison_shadow"); P_burst_fail = probe_id("map_failure_inside_a_burst_of_consecutive_failures"); P_multi_pages_checked = probe_id("used_pages_checked_against_measured_slab_sizes_at_end");
 	}
 	const char *name() override { return "simslab"; }
 	const char *op_name(int k) override { return k >= 0 && k < OP_N ? op_names[k] : "?"; }
@@ -152,6 +154,7 @@ struct SlabEngine : Engine {
 		for (int t = 1; t <= p.ntasks; t++) {
 			int nh = std::max(2, NH / p.ntasks); if (nh > 12) nh = 12;
 			int n = 3 + (int)rng.below(maxops);
+			int burst_left = 0; int64_t burst_size = 16;
 			for (int i = 0; i < n; i++) {
 				Op o; o.task = t; o.id = next_id[t]++;
 				int h = hbase + (int)rng.below(nh);
@@ -199,8 +202,11 @@ struct SlabEngine : Engine {
 				}
 				else { o.kind = OP_CHURN; o.a[1] = (int64_t)gen_size(rng, P, focus, false); o.a[2] = tier ? 50 + rng.below(3000) : 10 + rng.below(300); o.a[3] = 1 + rng.below(6);
 					if (rng.chance(1, tier ? 40 : 150)) { o.a[2] = 66000 + rng.below(3000); o.a[3] = 1 + rng.below(2); o.a[1] = (int64_t)class_size((int)rng.below(3)); } } // a counter that only wraps after 2^16 allocations
-				if (!P.aligned || rng.chance(1, 3)) o.place = (uint32_t)rng.next() | 1;
+				if (!P.aligned || rng.chance(2, 3)) o.place = (uint32_t)rng.next() | 1;
 				if ((prof == "C04" && rng.chance(1, 12)) || (prof != "C04" && prof != "C02" && rng.chance(1, 60))) o.mapfail = 1u << rng.below(2);
+				if (prof == "C04" && burst_left > 0 && (o.kind == OP_ALLOC || o.kind == OP_REALLOC_NULL)) { o.mapfail = 1 | NORETRY; o.a[1] = burst_size; burst_left--; }
+				else if (prof == "C04" && burst_left == 0 && rng.chance(1, 25)) { burst_left = 2 + (int)rng.below(7); burst_size = (int64_t)gen_size(rng, P, focus, false); } // 2..8 consecutive failures for one class
+				if (prof == "C04" && o.kind == OP_BULK && rng.chance(1, 6)) o.mapfail = ((1u << (1 + rng.below(8))) - 1) << rng.below(3) | NORETRY;
 				p.ops.push_back(o);
 			}
 			hbase += nh;
@@ -236,7 +242,7 @@ struct SlabEngine : Engine {
 		c.map_calls++;
 		int j = c.op_maps++; // index of this map call within the whole plan op (a bulk/churn op makes many pool calls)
 		if (cur_plan && me >= 1) map_sites.push_back({(int)((me << 20) | cur_opid()), j});
-		if (j < 32 && (c.mapfail & (1u << j)) && !fair_phase_retry) {
+		if (j < 31 && (c.mapfail & (1u << j)) && !fair_phase_retry) {
 			c.failed_any = true; c.failed_injected = true; probe(P_mapfail_injected); count_fault(FK_MAPFAIL);
 			for (int t = 1; t < MAXT; t++) if (t != me && locks_held(t) > 0) { probe(P_mapfail_while_other_holds); break; }
 			logev(0x4002, 0, 0);
@@ -250,20 +256,44 @@ struct SlabEngine : Engine {
 			switch (h & 3) { case 0: want_res = 0; break; case 1: want_res = pg; break; case 2: want_res = ((h >> 8) % (pi.sb_size / pg)) * pg; break; default: want_res = pi.sb_size - pg; break; }
 		}
 		size_t a = align ? align : pg;
-		// first fit over gaps
-		uint64_t pos = policy_base;
+		// placement mode (a per-op fault knob): lowest fitting address, or top-down (new regions BELOW the existing ones:
+		// the pool orders its slabs by address), or a hole further up (regions no longer adjacent); plus zero-filled
+		// instead of garbage-filled memory sometimes (code must not rely on either)
+		int pmode = c.place ? (int)((splitmix(c.place, 77 + (uint64_t)j) >> 7) % 4) : 0; // 0,1 low  2 high  3 skip-ahead
+		uint64_t hi_limit = policy_base + ((uint64_t)96 << 20); // keep top-down placements within a window so that runs stay comparable
+		if (hi_limit > policy_top) hi_limit = policy_top;
+		auto fit_low = [&](uint64_t from, uint64_t gap_end) -> uint64_t {
+			uint64_t cand = (from + a - 1) & ~(uint64_t)(a - 1);
+			if (!align) { uint64_t base_sb = cand & ~(uint64_t)(pi.sb_size - 1); cand = base_sb + want_res; if (cand < from) cand += pi.sb_size; }
+			return cand + len <= gap_end ? cand : 0;
+		};
+		auto fit_high = [&](uint64_t from, uint64_t gap_end) -> uint64_t {
+			if (gap_end < from + len) return 0;
+			uint64_t cand = (gap_end - len) & ~(uint64_t)(a - 1);
+			if (!align) { uint64_t base_sb = cand & ~(uint64_t)(pi.sb_size - 1); cand = base_sb + want_res; if (cand + len > gap_end) { if (cand < pi.sb_size) return 0; cand -= pi.sb_size; } }
+			return cand >= from && cand + len <= gap_end ? cand : 0;
+		};
 		uint64_t found = 0;
-		size_t ri = 0;
-		while (true) {
-			uint64_t cand = (pos + a - 1) & ~(uint64_t)(a - 1);
-			if (!align) { // choose the lowest address >= pos with the wanted residue modulo sb_size
-				uint64_t base_sb = cand & ~(uint64_t)(pi.sb_size - 1);
-				cand = base_sb + want_res; if (cand < pos) cand += pi.sb_size;
+		if (pmode == 2) { // top-down
+			uint64_t end = hi_limit;
+			for (size_t k = regions.size() + 1; k-- > 0 && !found;) {
+				uint64_t from = k ? regions[k - 1].base + regions[k - 1].len : policy_base;
+				if (from < end) found = fit_high(from, end);
+				if (k) end = std::min(end, regions[k - 1].base);
 			}
-			uint64_t gap_end = ri < regions.size() ? regions[ri].base : policy_top;
-			if (cand + len <= gap_end) { found = cand; break; }
-			if (ri >= regions.size()) break;
-			pos = regions[ri].base + regions[ri].len; ri++;
+			if (found) count_fault(FK_PLACEMENT);
+		}
+		if (!found) {
+			uint64_t pos = policy_base + (pmode == 3 ? (uint64_t)pi.sb_size * (1 + (splitmix(c.place, (uint64_t)j) >> 11) % 5) : 0);
+			size_t ri = 0;
+			while (ri < regions.size() && regions[ri].base + regions[ri].len <= pos) ri++;
+			if (ri < regions.size() && regions[ri].base < pos) { pos = regions[ri].base + regions[ri].len; ri++; }
+			while (true) {
+				uint64_t gap_end = ri < regions.size() ? regions[ri].base : policy_top;
+				if (pos < gap_end) found = fit_low(pos, gap_end);
+				if (found || ri >= regions.size()) break;
+				pos = std::max(pos, regions[ri].base + regions[ri].len); ri++;
+			}
 		}
 		if (!found) { probe(P_arena_exhausted); c.failed_any = true; return 0; }
 		if (!align && want_res) { probe(P_unaligned_slack); count_fault(FK_PLACEMENT); }
@@ -273,7 +303,8 @@ struct SlabEngine : Engine {
 		// fresh memory: garbage, poisoned (poison configs), no access history
 		char *p = arena + found;
 		uint64_t g = fill_rng().next();
-		for (size_t i = 0; i + 8 <= len; i += 8) { uint64_t v = g ^ (i * 0x9e3779b97f4a7c15ull); memcpy(p + i, &v, 8); }
+		if (c.place && (splitmix(c.place, 999 + (uint64_t)j) & 7) == 0) memset(p, 0, len); // zero pages, like a fresh mmap
+		else for (size_t i = 0; i + 8 <= len; i += 8) { uint64_t v = g ^ (i * 0x9e3779b97f4a7c15ull); memcpy(p + i, &v, 8); }
 		if (pi.poison) memset(pshadow + found, 1, len);
 		shadow_reset(p, len);
 		return (uintptr_t)p;
@@ -370,7 +401,7 @@ struct SlabEngine : Engine {
 		api = mt == MT_SIM ? &slab_api_sim : mt == MT_TICKET ? &slab_api_ticket : &slab_api_simple;
 		profile = p.profile; single = p.ntasks == 1; cur_plan = &p; calibrating = false;
 		granule = p.knob("granule", 0) != 0 && policy_info[resolve_pc(p)].poison; if (granule) probe(P_granule_runs);
-		faultfree = true; for (auto &o : p.ops) if (o.mapfail) faultfree = false;
+		faultfree = true; for (auto &o : p.ops) if (o.mapfail & ~NORETRY) faultfree = false;
 		max_small = class_size(pi.num_buckets - 1);
 		if (!pshadow) { pshadow = (uint8_t *)mmap(nullptr, arena_size, PROT_READ | PROT_WRITE, MAP_PRIVATE | MAP_ANONYMOUS | MAP_NORESERVE, -1, 0); }
 		policy_base = (size_t)16 << 20; policy_top = arena_size - (1 << 20);
@@ -400,7 +431,8 @@ struct SlabEngine : Engine {
 			a->construct(pc, poolmem);
 			size_t n = class_size(i);
 			int64_t cnt = 0;
-			while (true) { void *p = a->allocate(pc, poolmem, n); if (!p || calib_maps >= 2) break; cnt++; if (cnt > (1 << 20)) break; }
+			int64_t pages0 = (int64_t)a->used_pages(pc, poolmem);
+			while (true) { void *p = a->allocate(pc, poolmem, n); if (!p || calib_maps >= 2) break; if (!cnt) slab_pages_cache[{pc, (uint64_t)n}] = (int64_t)a->used_pages(pc, poolmem) - pages0; cnt++; if (cnt > (1 << 20)) break; }
 			bps_cache[{pc, (uint64_t)n}] = cnt;
 			calibrating = false;
 		}
@@ -575,6 +607,7 @@ struct SlabEngine : Engine {
 			after_failed(me, op, what, -1);
 			pages_post(me, what);
 			end_call(me);
+			if (op.mapfail & NORETRY) { probe(P_burst_fail); return false; } // part of a failure burst: recovery is judged by a later request
 			// recovery: the same request with mapping working again must succeed
 			Op retry = op; retry.mapfail = 0;
 			begin_call(me, retry); pages_pre(me);
@@ -734,7 +767,7 @@ struct SlabEngine : Engine {
 			for (int x : hs) {
 				Op a = op; a.kind = OP_ALLOC; // map-failure bits of the bulk op index its map calls across all of its pool calls
 				uint64_t before = total_maps;
-				if (!do_alloc(me, a, x, n, false)) break;
+				if (!do_alloc(me, a, x, n, false)) { if (op.mapfail & NORETRY) continue; break; }
 				got.push_back(x); probe(P_bulk_blocks);
 				if (total_maps != before && total_maps - maps0 >= 2 && !filled) { filled = true; probe(P_slab_filled); }
 				progress();
@@ -836,6 +869,11 @@ struct SlabEngine : Engine {
 			expect += r.pages; if (!r.counted) all_counted = false;
 		}
 		int64_t used = (int64_t)api->used_pages(pc, pool);
+		{ // independent of who mapped what in which order: every slab still mapped accounts for the measured size of its class
+			int64_t exp2 = 0; bool known = true;
+			for (auto &r : regions) { auto it = slab_pages_cache.find({pc, r.cls}); if (r.kind != 0 || !r.cls || it == slab_pages_cache.end()) { known = false; break; } exp2 += it->second; }
+			if (known) { probe(P_multi_pages_checked); if (used != exp2) violation("page_counter", "after all blocks were freed numUsedPages() = %lld but the %zu slab(s) still mapped account for %lld page(s) (drift or a lost update)", (long long)used, regions.size(), (long long)exp2); }
+		}
 		if (all_counted && used != expect) violation("page_counter", "after all blocks were freed numUsedPages() = %lld but the regions still mapped had added %lld", (long long)used, (long long)expect);
 		if (used < 0 || used > (int64_t)(arena_size / pi.pagesize)) violation("page_counter", "numUsedPages() = %lld at the end: underflow or drift", (long long)used);
 		for (int t = 1; t < MAXT; t++) if (locks_held(t) != 0) violation("mapfail_lock_left", "task %d finished while holding %d pool lock(s)", t, locks_held(t));
@@ -848,7 +886,7 @@ struct SlabEngine : Engine {
 		std::vector<std::pair<size_t, int>> sites;
 		for (auto &s : map_sites) {
 			int task = s.first >> 20, opid = s.first & 0xFFFFF;
-			for (size_t i = 0; i < base.ops.size(); i++) if (base.ops[i].task == task && base.ops[i].id == opid) { if (s.second < 32) sites.push_back({i, s.second}); break; }
+			for (size_t i = 0; i < base.ops.size(); i++) if (base.ops[i].task == task && base.ops[i].id == opid) { if (s.second < 31) sites.push_back({i, s.second}); break; }
 		}
 		if (sites.size() > 40) sites.resize(40);
 		auto with = [&](std::initializer_list<size_t> idx) { Plan q = base; for (size_t k : idx) q.ops[sites[k].first].mapfail |= 1u << sites[k].second; q.knobs["derived"] = 1; return q; };
@@ -875,6 +913,7 @@ struct SlabEngine : Engine {
 };
 
 std::map<std::pair<int, uint64_t>, int64_t> SlabEngine::bps_cache;
+std::map<std::pair<int, uint64_t>, int64_t> SlabEngine::slab_pages_cache;
 
 extern "C" uint32_t simh_lock_age() { return G->calibrating ? 0 : (uint32_t)plan().knob("age", 0); }
 extern "C" uintptr_t slabh_map(size_t len, size_t align) { return G->do_map(len, align); }
